@@ -3171,3 +3171,280 @@ def gen_Stoch(repo):
     # engine_collection: which options require molecules (quantity unit forced to 'molecule')
     L.append("\nend Strengths.Gen")
     return "\n".join(L) + "\n"
+
+
+# =============================================================================================
+# Python kinetics / marshalling (C01, C03, C04): neighbour enumeration, wrap lines, chemostat lookup,
+# rate / diffusion formulas (normalised text), rate-constant dimensions, marshalling subscripts and loop orders
+# =============================================================================================
+def _norm(src, node):
+    return re.sub(r"\s+", "", src.seg(node))
+
+
+def _stmts(fn):
+    """all statements of a function, depth first, in source order"""
+    out = []
+
+    def rec(body):
+        for st in body:
+            out.append(st)
+            for fld in ("body", "orelse", "finalbody"):
+                sub = getattr(st, fld, None)
+                if isinstance(sub, list):
+                    rec(sub)
+    rec(fn.body)
+    return out
+
+
+def _stmt_texts(src, fn, keep):
+    """normalised source text of the simple statements (Assign/AugAssign/Return/Expr) of fn selected by keep(text)"""
+    res = []
+    for st in _stmts(fn):
+        if isinstance(st, (ast.Assign, ast.AugAssign, ast.Return, ast.Expr)):
+            if isinstance(st, ast.Expr) and isinstance(st.value, ast.Constant) and isinstance(st.value.value, str):
+                continue   # docstring
+            t = _norm(src, st)
+            if keep(t):
+                res.append(t)
+    return res
+
+
+def _need(lst, what, n=None):
+    if not lst or (n is not None and len(lst) != n):
+        raise AnchorLost("%s (found %d)" % (what, len(lst)))
+    return lst
+
+
+@group
+def gen_KineticsPy(repo):
+    kin = PySrc(repo, "src/strengths/kinetics.py")
+    L = ["namespace Strengths.Gen\n"]
+
+    def strs(l):
+        return lean_list([lean_str(x) for x in l])
+
+    # ---- _compute_dspeciesdt_grid : candidate list, wrap lines, bounds test, chemostat test, accumulation
+    g = kin.func("_compute_dspeciesdt_grid")
+    cand = None
+    for st in _stmts(g):
+        if isinstance(st, ast.For) and isinstance(st.iter, ast.List) and isinstance(st.target, ast.Name) and st.target.id == "c":
+            cand = st
+    if cand is None:
+        raise AnchorLost("kinetics.py:_compute_dspeciesdt_grid candidate loop `for c in [[...]...]`")
+    offs = []
+    for el in cand.iter.elts:
+        if not (isinstance(el, ast.List) and len(el.elts) == 3):
+            raise AnchorLost("kinetics.py:_compute_dspeciesdt_grid candidate triple")
+        tri = []
+        for k, comp in enumerate(el.elts):
+            t = _norm(kin, comp)
+            m = re.fullmatch(r"p\[(\d)\](?:([-+])(\d+))?", t)
+            if not m or int(m.group(1)) != k:
+                raise AnchorLost("kinetics.py:_compute_dspeciesdt_grid candidate component " + t)
+            tri.append(int((m.group(2) or "+") + (m.group(3) or "0")))
+        offs.append(tuple(tri))
+    L.append("/-- `_compute_dspeciesdt_grid`: the six candidate neighbours as coordinate offsets, in loop order -/")
+    L.append("def pyNbrOffsets : List (Int × Int × Int) := %s" %
+             lean_list(["((%d : Int), (%d : Int), (%d : Int))" % t for t in offs]))
+    wraps = {}
+    for st in cand.body:
+        if isinstance(st, ast.If) and isinstance(st.test, ast.BoolOp) and isinstance(st.test.op, ast.And) and len(st.test.values) == 2:
+            a, b = st.test.values
+            ta = _norm(kin, a)
+            m = re.fullmatch(r'system\.space\._boundary_conditions\["([xyz])"\]=="(\w+)"', ta)
+            if not m:
+                continue
+            ax = "xyz".index(m.group(1))
+            size = "system.space." + "whd"[ax]
+            if len(st.body) != 1 or not isinstance(st.body[0], ast.Assign) or _norm(kin, st.body[0].targets[0]) != "c[%d]" % ax:
+                raise AnchorLost("kinetics.py:_compute_dspeciesdt_grid wrap assignment of axis %d" % ax)
+            guard = ExprTr(kin, {size: "n"}).tr(b)
+            expr = ExprTr(kin, {size: "n", "c[%d]" % ax: "c"}).tr(st.body[0].value)
+            wraps[ax] = (m.group(2), guard, expr)
+    if sorted(wraps) != [0, 1, 2]:
+        raise AnchorLost("kinetics.py:_compute_dspeciesdt_grid wrap lines (three `if ... periodical and size > 1`)")
+    L.append("/-- boundary-condition string that enables wrapping, per axis -/")
+    L.append("def pyWrapMode : List String := %s" % strs([wraps[a][0] for a in range(3)]))
+    for a in range(3):
+        L.append("/-- wrap of axis %d: extra guard on the axis length `n`, and the new coordinate from `n` and candidate `c` -/" % a)
+        L.append("def pyWrapGuard%d (n : Int) : Bool := %s" % (a, wraps[a][1]))
+        L.append("def pyWrap%d (n c : Int) : Int := %s" % (a, wraps[a][2]))
+    inb = [st for st in cand.body if isinstance(st, ast.If) and _norm(kin, st.test) == "system.space.is_within_bounds(c)"]
+    _need(inb, "kinetics.py:_compute_dspeciesdt_grid `if system.space.is_within_bounds(c)`", 1)
+    L.append("def pyGridNbrBody : List String := %s" % strs([_norm(kin, s) for s in inb[0].body]))
+
+    def chem_test(fn):
+        for st in fn.body:
+            if isinstance(st, ast.If) and isinstance(st.test, ast.BoolOp) and isinstance(st.test.op, ast.And) \
+                    and _norm(kin, st.test.values[0]) == "apply_chemostats" and len(st.test.values) == 2:
+                return _norm(kin, st.test.values[1]), [_norm(kin, s) for s in st.body]
+        raise AnchorLost("kinetics.py:%s `if apply_chemostats and ...`" % fn.name)
+    gg = kin.func("_compute_dspeciesdt_graph")
+    ct_grid, cb_grid = chem_test(g)
+    ct_graph, cb_graph = chem_test(gg)
+    L.append("/-- the flag consulted by `if apply_chemostats and <...>` and the statement executed when it is set -/")
+    L.append("def pyChemTestGrid : String := %s" % lean_str(ct_grid))
+    L.append("def pyChemTestGraph : String := %s" % lean_str(ct_graph))
+    L.append("def pyChemBodyGrid : List String := %s" % strs(cb_grid))
+    L.append("def pyChemBodyGraph : List String := %s" % strs(cb_graph))
+    L.append("/-- statements accumulating into `d` (`d = 0` … `d += …` … `return d.convert(...)`), in source order -/")
+    L.append("def pyAccumGrid : List String := %s" % strs(_need(_stmt_texts(kin, g, lambda t: t.startswith("d=") or t.startswith("d+=") or t.startswith("returnd")), "kinetics.py:_compute_dspeciesdt_grid accumulation")))
+    L.append("def pyAccumGraph : List String := %s" % strs(_need(_stmt_texts(kin, gg, lambda t: t.startswith("d=") or t.startswith("d+=") or t.startswith("returnd")), "kinetics.py:_compute_dspeciesdt_graph accumulation")))
+    # graph neighbour enumeration: conditions of the loop over j
+    conds = []
+    for st in _stmts(gg):
+        if isinstance(st, ast.For) and _norm(kin, st.iter) == "range(system.space.size())":
+            for s2 in _stmts(st):
+                if isinstance(s2, ast.If):
+                    conds.append(_norm(kin, s2.test))
+    L.append("def pyGraphNbrConds : List String := %s" % strs(_need(conds, "kinetics.py:_compute_dspeciesdt_graph neighbour loop conditions")))
+
+    # ---- compute_reaction_rates : the statements building rf / rr
+    crr = kin.func("compute_reaction_rates")
+    L.append("/-- `compute_reaction_rates`: statements defining `rf`, `rr`, `volume`, the state index and the returned pair -/")
+    L.append("def pyRateStmts : List String := %s" % strs(_need(_stmt_texts(
+        kin, crr, lambda t: re.match(r"(rf|rr|volume|state_index|ssto|psto|environment_index|environment_label)(=|\*=)", t) or t.startswith("returnrf")),
+        "kinetics.py:compute_reaction_rates rate statements")))
+    # ---- compute_diffusion_rates : formulas of both branches
+    cdr = kin.func("compute_diffusion_rates")
+    L.append("/-- `compute_diffusion_rates`: statements defining the diffusion constants and the returned pairs -/")
+    L.append("def pyDiffStmts : List String := %s" % strs(_need(_stmt_texts(
+        kin, cdr, lambda t: re.match(r"(Di|Dj|Di,Dj|Dij|hi|hj|h|k|kf|kr|Vi|Vj|volumes|surface|distance|src_state_index|dst_state_index)=", t) or t.startswith("return(")),
+        "kinetics.py:compute_diffusion_rates statements")))
+    tests = []
+    for st in _stmts(cdr):
+        if isinstance(st, ast.If):
+            t = _norm(kin, st.test)
+            if "Di" in t or "get_edge" in t or "are_neighbors" in t:
+                tests.append(t)
+    L.append("def pyDiffTests : List String := %s" % strs(_need(tests, "kinetics.py:compute_diffusion_rates tests")))
+    # ---- compute_dstatedt loop order
+    cds = kin.func("compute_dstatedt")
+    loops = [(_norm(kin, st.target), _norm(kin, st.iter)) for st in _stmts(cds) if isinstance(st, ast.For)]
+    L.append("/-- `compute_dstatedt`: nesting of the loops (outer first) and the appended call -/")
+    L.append("def pyDstateLoops : List (String × String) := %s" % lean_list(["(%s, %s)" % (lean_str(a), lean_str(b)) for a, b in _need(loops, "compute_dstatedt loops")]))
+    L.append("def pyDstateStmts : List String := %s\n" % strs(_need(_stmt_texts(kin, cds, lambda t: "append" in t or t.startswith("return")), "compute_dstatedt statements")))
+
+    # ---- rdnetwork.py : dimensions of rate constants, reaction splitting
+    net = PySrc(repo, "src/strengths/rdnetwork.py")
+    for fname, tag in (("kf_units_dimensions", "Kf"), ("kr_units_dimensions", "Kr")):
+        fn = net.func(fname, "Reaction")
+        ret = [st for st in fn.body if isinstance(st, ast.Return)]
+        if len(ret) != 1 or not isinstance(ret[0].value, ast.Call) or getattr(ret[0].value.func, "id", "") != "UnitsDimensions":
+            raise AnchorLost("rdnetwork.py:Reaction.%s return UnitsDimensions(...)" % fname)
+        kw = {k.arg: k.value for k in ret[0].value.keywords}
+        if sorted(kw) != ["quantity", "space", "time"]:
+            raise AnchorLost("rdnetwork.py:Reaction.%s keywords" % fname)
+        counted = [_norm(net, st.iter) for st in fn.body if isinstance(st, ast.For)]
+        incr = _stmt_texts(net, fn, lambda t: t.startswith("count"))
+        L.append("/-- `Reaction.%s` : exponents as functions of `count`, what is counted -/" % fname)
+        for k, nm in (("space", "Space"), ("time", "Time"), ("quantity", "Qty")):
+            L.append("def dim%s%s (count : Int) : Int := %s" % (tag, nm, ExprTr(net, {"count": "count"}).tr(kw[k])))
+        L.append("def dim%sCounted : List String := %s" % (tag, strs(counted + incr)))
+    sp = net.func("split", "Reaction")
+    calls = []
+    for st in _stmts(sp):
+        if isinstance(st, ast.Assign) and isinstance(st.value, ast.Call) and getattr(st.value.func, "id", "") == "Reaction":
+            kw = {k.arg: _norm(net, k.value) for k in st.value.keywords}
+            calls.append((_norm(net, st.targets[0]), kw.get("stoichiometry", ""), kw.get("kf", ""), kw.get("kr", "")))
+    ret = [_norm(net, st) for st in sp.body if isinstance(st, ast.Return)]
+    L.append("/-- `Reaction.split`: (name, stoichiometry, kf, kr) of the two constructed reactions, and the return -/")
+    L.append("def pySplit : List (String × String × String × String) := %s" %
+             lean_list(["(%s, %s, %s, %s)" % tuple(lean_str(x) for x in c) for c in _need(calls, "Reaction.split constructor calls", 2)]))
+    L.append("def pySplitReturn : List String := %s" % strs(ret))
+    for fname in ("ssto", "psto", "dsto"):
+        fn = net.func(fname, "Reaction")
+        L.append("def py_%s : String := %s" % (fname, lean_str(_norm(net, fn.body[-1]))))
+    L.append("")
+
+    # ---- value_processing.get_value_in_env : order of the look-ups
+    vp = PySrc(repo, "src/strengths/value_processing.py")
+    gv = vp.func("get_value_in_env")
+    seq = []
+    for st in _stmts(gv):
+        if isinstance(st, ast.If):
+            seq.append("if:" + _norm(vp, st.test))
+        elif isinstance(st, ast.Return):
+            seq.append(_norm(vp, st))
+    L.append("/-- `get_value_in_env`: tests and returns in source order -/")
+    L.append("def pyGetValueInEnv : List String := %s\n" % strs(_need(seq, "get_value_in_env")))
+
+    # ---- rdsystem.py : make_dxdtf, apply_reaction, get_chemostat
+    rds = PySrc(repo, "src/strengths/rdsystem.py")
+    mk = rds.func("make_dxdtf", "RDSystem")
+    L.append("/-- `RDSystem.make_dxdtf`: simple statements in source order (outer function and the returned closure) -/")
+    L.append("def pyDxdtfStmts : List String := %s" % strs(_need(_stmt_texts(rds, mk, lambda t: True), "make_dxdtf statements")))
+    L.append("def pyDxdtfLoops : List (String × String) := %s" % lean_list(
+        ["(%s, %s)" % (lean_str(_norm(rds, st.target)), lean_str(_norm(rds, st.iter))) for st in _stmts(mk) if isinstance(st, ast.For)]))
+    for dfn in [n for n in ast.walk(mk) if isinstance(n, ast.FunctionDef) and n is not mk]:
+        L.append("def pyDxdtfInner_%s : List String := %s" % (dfn.name, strs(_stmt_texts(rds, dfn, lambda t: True))))
+        L.append("def pyDxdtfInnerLoops_%s : List (String × String) := %s" % (dfn.name, lean_list(
+            ["(%s, %s)" % (lean_str(_norm(rds, st.target)), lean_str(_norm(rds, st.iter))) for st in _stmts(dfn) if isinstance(st, ast.For)])))
+    ar = rds.func("apply_reaction", "RDSystem")
+    loop = [st for st in _stmts(ar) if isinstance(st, ast.For)]
+    _need(loop, "apply_reaction loop", 1)
+    body = []
+    for st in _stmts(loop[0]):
+        body.append(("if:" + _norm(rds, st.test)) if isinstance(st, ast.If) else _norm(rds, st))
+    L.append("/-- `RDSystem.apply_reaction`: the applying loop (iterator, then statements / tests in order) and the `dx` definition -/")
+    L.append("def pyApplyLoop : List String := %s" % strs([_norm(rds, loop[0].target) + " in " + _norm(rds, loop[0].iter)] + body))
+    L.append("def pyApplyDx : List String := %s" % strs(_need(_stmt_texts(rds, ar, lambda t: t.startswith("dx=") or t.startswith("r=")), "apply_reaction dx")))
+    gc = rds.func("get_chemostat", "RDSystem")
+    L.append("def pyGetChemostat : List String := %s" % strs(_stmt_texts(rds, gc, lambda t: True)))
+    sc = rds.func("set_chemostat", "RDSystem")
+    L.append("def pySetChemostat : List String := %s\n" % strs(_stmt_texts(rds, sc, lambda t: True)))
+
+    # ---- librdengine.py : marshalling subscripts and loop orders
+    lre = PySrc(repo, "src/strengths/librdengine.py")
+
+    def store_formula(fname, arr, names):
+        fn = lre.func(fname)
+        for st in _stmts(fn):
+            if isinstance(st, ast.Assign) and isinstance(st.targets[0], ast.Subscript) and _norm(lre, st.targets[0].value) == arr:
+                loops = [(_norm(lre, f.target), _norm(lre, f.iter)) for f in _stmts(fn) if isinstance(f, ast.For)]
+                return ExprTr(lre, names).tr(st.targets[0].slice), _norm(lre, st.value), loops
+        raise AnchorLost("librdengine.py:%s store into %s[...]" % (fname, arr))
+    nm = {"n_reactions": "nr", "n_env": "ne", "s": "s", "r": "r", "e": "e"}
+    f_sub, v_sub, l_sub = store_formula("build_substrate_stoechiometric_matrix", "sub", nm)
+    f_sto, v_sto, l_sto = store_formula("build_stoechiometric_difference_matrix", "sto", nm)
+    f_d, v_d, l_d = store_formula("build_diff_coef_environment_matrix", "D", nm)
+    L.append("/-- `build_*_matrix`: index written, value stored, loops (outer first) -/")
+    L.append("def pySubIndex (nr s r : Int) : Int := %s" % f_sub)
+    L.append("def pyStoIndex (nr s r : Int) : Int := %s" % f_sto)
+    L.append("def pyDIndex (ne s e : Int) : Int := %s" % f_d)
+    L.append("def pySubValue : String := %s" % lean_str(v_sub))
+    L.append("def pyStoValue : String := %s" % lean_str(v_sto))
+    L.append("def pyDValue : String := %s" % lean_str(v_d))
+
+    def loops_lean(l):
+        return lean_list(["(%s, %s)" % (lean_str(a), lean_str(b)) for a, b in l])
+    L.append("def pySubLoops : List (String × String) := %s" % loops_lean(l_sub))
+    L.append("def pyStoLoops : List (String × String) := %s" % loops_lean(l_sto))
+    L.append("def pyDLoops : List (String × String) := %s" % loops_lean(l_d))
+    bk = lre.func("build_reaction_rate_constant_matrix")
+    l_k = [(_norm(lre, f.target), _norm(lre, f.iter)) for f in _stmts(bk) if isinstance(f, ast.For)]
+    app = _stmt_texts(lre, bk, lambda t: t.startswith("km.append") or t.startswith("km=") or t.startswith("returnkm"))
+    L.append("/-- `build_reaction_rate_constant_matrix`: loops (outer first; the list is appended to, so position = e*nr + r) -/")
+    L.append("def pyKLoops : List (String × String) := %s" % loops_lean(_need(l_k, "build_reaction_rate_constant_matrix loops", 2)))
+    L.append("def pyKStmts : List String := %s" % strs(_need(app, "build_reaction_rate_constant_matrix statements")))
+    su = lre.func("setup", "LibRDEngine")
+    L.append("/-- `LibRDEngine.setup`: the reaction splitting loop and the engine units system -/")
+    L.append("def pySetupStmts : List String := %s" % strs(_need(_stmt_texts(
+        lre, su, lambda t: t.startswith("rf,rr=") or t.startswith("reactions") or t.startswith("units_system") or t.startswith("self._units_system")),
+        "LibRDEngine.setup statements")))
+    for fname in ("_setup_grid", "_setup_graph"):
+        fn = lre.func(fname, "LibRDEngine")
+        call = None
+        for n in ast.walk(fn):
+            if isinstance(n, ast.Call) and _norm(lre, n.func).startswith("self._lib.engineexport_initialize"):
+                call = n
+        if call is None:
+            raise AnchorLost("librdengine.py:%s engineexport_initialize call" % fname)
+        L.append("/-- `%s`: the arguments handed to the native initialiser, in order -/" % fname)
+        L.append("def pyArgs%s : List String := %s" % (fname, strs([_norm(lre, a) for a in call.args])))
+    for fname in ("_get_data", "_get_t_sample"):
+        fn = lre.func(fname, "LibRDEngine")
+        ret = [st for st in fn.body if isinstance(st, ast.Return)]
+        L.append("def pyRet%s : String := %s" % (fname, lean_str(_norm(lre, ret[-1]) if ret else "")))
+    L.append("\nend Strengths.Gen")
+    return "\n".join(L) + "\n"
